@@ -404,6 +404,24 @@ def mpi_backend(c, exe, groups, tier):
     for n in (7, 8, 9):
         es = [(u, v, 1 + rng.randint(0, 60)) for u in range(n) for v in range(u + 1, n)]
         pick.append(("complete", (n, es)))
+    # complete graphs whose light edges sit among the LAST vertices (the minimum odd cycle of a dense phase then lies in the tail of the vertex list, which a
+    # vertex-slice partition that drops n mod P vertices never searches), and sparse graphs on 50..60 vertices (supports with many signed edges per slice)
+    for n in (7, 7, 8, 9, 11, 11):
+        t = 3 if n != 9 else 4
+        es = [(u, v, (rng.randint(1, 3) if u >= n - t else rng.randint(20, 60))) for u in range(n) for v in range(u + 1, n)]
+        rng.shuffle(es)
+        pick.append(("complete", (n, es)))
+    # ... and complete graphs in which the triangle on the last three vertices belongs to the minimum basis but is among its heaviest members (light edges among
+    # the first vertices, tail edges 10k, cross edges 11k): it is found in a late phase, when the support has at least |V| entries
+    for n in (7, 7, 7, 7, 8, 8, 11, 11):
+        k = rng.randint(4, 8); head = n - 3
+        def wgt(u, v): return (1 if v < head else 10 * k if u >= head else 11 * k) + rng.randint(0, 2)
+        es = [(u, v, wgt(u, v)) for u in range(n) for v in range(u + 1, n)]
+        rng.shuffle(es)
+        pick.append(("complete", (n, es)))
+    for _ in range(24 if tier == "quick" else 80):
+        n = rng.randint(50, 60); g0 = gen.random_graph(rng, n, rng.choice([0.07, 0.08, 0.09]))
+        pick.append(("sparse-60", gen.weigh(rng, g0, "wide")[0]))
     seq = lib.run_lines([exe], ["M D 0 signed " + gen.graph_tokens(g) for _, g in pick], timeout=1500)
     expect = []
     for o in seq:
@@ -416,7 +434,7 @@ def mpi_backend(c, exe, groups, tier):
         lines = []; meta = []
         for j, (name, g) in enumerate(pick):
             if expect[j] is None: continue
-            for a in (algs if (j + P) % 3 == 0 or name == "complete" else ["signed", algs[1 + (j + P) % 4]]):
+            for a in (["signed"] if name == "sparse-60" else algs if (j + P) % 3 == 0 or name == "complete" else ["signed", algs[1 + (j + P) % 4]]):
                 ty = "I" if gen.int_domain_ok(g) and (j + P) % 2 else "D"
                 lines.append("%s %s 0 %d %s" % (a, ty, rng.randint(0, 10 ** 6) if j % 2 else 0, gen.graph_tokens(g))); meta.append((j, a, ty))
         jobs.append((P, lines, meta))
